@@ -12,7 +12,7 @@ pub fn def() -> CheckDef {
         bounds_quick: "lax half: pairs of lax diagrams with <=2 nodes, <=1 hyperedge, <=1 pending pair each (<=6 node references per pair, all wirings enumerated, labels symbolic), triples of <=1-node diagrams; strict half: pairs: per operand W<=2, X<=1, S,T<=2, interfaces<=2 (whole box); triples: W<=1, X<=1, S,T<=1, interfaces<=1; unit laws on the pair box",
         bounds_thorough: "pairs W<=3, X<=2, S,T<=3, interfaces<=2; triples W<=2, X<=1",
         jobs,
-        budget_s: (120, 1500),
+        budget_s: (100, 1500),
     }
 }
 
@@ -104,6 +104,7 @@ pub fn jobs(tier: Tier, seed: u64) -> Vec<Job> {
     Rng::new(seed).shuffle(&mut pairs);
     // corner pairs first (empty operands, zero-arity, maximal)
     pairs.sort_by_key(|(f, g)| !((f.w == 0 || g.w == 0) || (f.x == 1 && f.s == 0 && f.t == 0) || (f.w == 2 && g.w == 2 && f.s == 2 && g.t == 2)));
+    pairs.truncate(super::c01::MAX_JOBS);
     for (f, g) in pairs {
         out.push(case_job(
             crate::case!(format!("tensor f={} g={}", f.show(), g.show()), move || PV::List(vec![PV::OH(gen_oh(&f, "f")), PV::OH(gen_oh(&g, "g"))]), c02_tensor, oracle_tensor, 5),
@@ -121,6 +122,7 @@ pub fn jobs(tier: Tier, seed: u64) -> Vec<Job> {
         }
     }
     Rng::new(seed ^ 7).shuffle(&mut triples);
+    triples.truncate(super::c01::MAX_JOBS / 2);
     for (f, g, h) in triples {
         out.push(case_job(
             crate::case!(format!("assoc f={} g={} h={}", f.show(), g.show(), h.show()), move || PV::List(vec![PV::OH(gen_oh(&f, "f")), PV::OH(gen_oh(&g, "g")), PV::OH(gen_oh(&h, "h"))]), c02_assoc, oracle_assoc, 2),
